@@ -55,6 +55,8 @@ type ClaimSpec struct {
 	UnhealthyStepS int    `json:"unhealthyStepS,omitempty"` // clock step before the unhealthy condition is set
 	UnhealthyGapS  int    `json:"unhealthyGapS,omitempty"`  // clock step between two unhealthy conditions of the same node
 	NoiseCond      bool   `json:"noiseCond,omitempty"`      // Node carries a policy condition type in the non-matching status
+	// NodeTerminating: the (unhealthy) Node already carries a deletionTimestamp and lingers behind its termination finalizer
+	NodeTerminating bool `json:"nodeTerminating,omitempty"`
 	// JoinsDuringPass: the claim is only created when the reaper runs; inside the pass (right after the provider's List took
 	// its snapshot / right after the NodeClaim list returned) its scale-up completes: instance launched, Node joined
 	// NotReady, NodeClaim Registered
@@ -334,6 +336,12 @@ func build(S Spec, seed int64) (*W, error) {
 				e.Clock.Step(time.Duration(c.UnhealthyGapS) * time.Second)
 			}
 			w.setNodeCond(w.Nodes[i], S.Policies[pi].Type, S.Policies[pi].Status)
+		}
+		if c.NodeTerminating {
+			n := &corev1.Node{}
+			if e.API.Raw.Get(ctx, types.NamespacedName{Name: w.Nodes[i]}, n) == nil && len(n.Finalizers) > 0 {
+				_ = e.API.Raw.Delete(ctx, n) // stays, terminating, behind the finalizer
+			}
 		}
 	}
 	for i := range S.Claims {
